@@ -1,6 +1,6 @@
 SPECIFICATION Spec
 CONSTANTS
-  Kinds = {"lambda", "closure", "rec", "cinst", "inst", "ccls", "cls"}
+  Kinds = {"lambda", "closure", "rec", "cinst", "inst", "ccls", "cls", "icinst", "icls"}
   MaxSt = 3
   MaxDepth = 2
   MaxSteps = 7
